@@ -94,10 +94,15 @@ def judge(before, active_before, srv, o, names=NAMESETS[0]):
     return None
 
 
-def run_case(state, body_i, faults, ns_i=0):
+# how the server words its completions (RefServer._text_choice): quoted | code + literal | code + two-line literal with a status look-alike
+STATUS_FORMS = [0, 3, 4, 1]
+
+
+def run_case(state, body_i, faults, ns_i=0, form=0):
     names = NAMESETS[ns_i]
     store, active = build(state, BODIES[body_i], names)
     srv = refms.RefServer(store=store, active=active, version=False, faults=[(v, 0, a) for v, a in faults])
+    srv.status_form = form
     before = dict(srv.store)
     s = wire.open_session(srv)
     o = s.call("renamescript", names["old"], names["new"])
@@ -119,15 +124,15 @@ def task(t):
     for state in states:
         for bi in range(len(BODIES)):
             for faults in fault_sets:
-              for ns_i in (range(len(NAMESETS)) if len(faults) <= 1 else (0,)):
-                bad, o, srv = run_case(state, bi, faults, ns_i)
+              for ns_i, form in ([(i, 0) for i in range(len(NAMESETS))] + [(0, f) for f in STATUS_FORMS[1:]] if len(faults) <= 1 else [(0, 0)]):
+                bad, o, srv = run_case(state, bi, faults, ns_i, form)
                 n += 1
                 distinct.add((state, faults, o.key(with_err=False), tuple(sorted(srv.store)), srv.active))
                 if bad:
                     viols.append({"property": "C14", "engine": "wire",
-                                  "signature": ["C14", "old=%s new=%s other=%s" % state + ("/names%d" % ns_i if ns_i else ""), "+".join("%s@%s" % (a, v) for v, a in faults) or "no-fault", bad[0]],
+                                  "signature": ["C14", "old=%s new=%s other=%s" % state + ("/names%d" % ns_i if ns_i else "") + ("/form%d" % form if form else ""), "+".join("%s@%s" % (a, v) for v, a in faults) or "no-fault", bad[0]],
                                   "what": "emulated rename old->new from state old=%s new=%s other=%s, faults %r: %s (outcome %s)" % (state + (faults, bad[1], o.brief())),
-                                  "case": {"state": list(state), "body_i": bi, "faults": [list(f) for f in faults], "ns_i": ns_i},
+                                  "case": {"state": list(state), "body_i": bi, "faults": [list(f) for f in faults], "ns_i": ns_i, "form": form},
                                   "witness": "state old=%s new=%s other=%s faults=%r body=%r" % (state + (faults, BODIES[bi])), "observed": o.brief()})
                 elif sample is None and faults and o.kind == "ret":
                     sample = {"state": "old=%s new=%s other=%s" % state, "faults": repr(faults), "outcome": o.brief(), "store_after": sorted(srv.store)}
@@ -153,7 +158,8 @@ def run(tier, seed):
         viols.extend(r["violations"])
     cov = dict(states=len(states) * len(BODIES), transitions=n, traces_validated_against_impl=n, evaluations=n, distinct_nontrivial=sum(r["distinct"] for r in res),
                rule="E3: %d initial stores (old/new/other x absent/present/active, at most one active) x %d bodies x fault placements (none; each of "
-                    "%r x %r; every pair on distinct verbs; thorough: also triples) against the reference server without VERSION; oracle on the server's store "
+                    "%r x %r, each also under 3 name sets and 4 wordings of the server's completions (quoted, literal, response code + literal, two-line "
+                    "literal with a status look-alike); every pair on distinct verbs; thorough: also triples) against the reference server without VERSION; oracle on the server's store "
                     "before/after" % (len(states), len(BODIES), VERBS, ACTIONS),
                samples=[r["sample"] for r in res if r["sample"]][:5] or [{"note": "none"}], exhaustive=True)
     return dict(violations=viols, coverage=cov, harness_errors=[], assumptions=["reference server semantics per RFC 5804 section 2 (DESIGN.md Appendix B)"])
@@ -163,7 +169,7 @@ def replay(payload):
     c = payload["case"]
     if c.get("native"):
         return []
-    bad, o, srv = run_case(tuple(c["state"]), c["body_i"], tuple(tuple(f) for f in c["faults"]), c.get("ns_i", 0))
+    bad, o, srv = run_case(tuple(c["state"]), c["body_i"], tuple(tuple(f) for f in c["faults"]), c.get("ns_i", 0), c.get("form", 0))
     if bad:
         sig = list(payload["signature"])
         sig[3] = bad[0]
